@@ -288,6 +288,116 @@ Example C04_bucket_guard_satisfiable :
   find_bucket 1700000000000 1700000010000 4000 1700000009999 = Some 1700000008000.
 Proof. reflexivity. Qed.
 
+(* ---------- `bin <timefield> span=<n><unit> [aligntime=T]`: buckets on a grid with an origin ----------
+   [bin_time u n align ts] = binProcessor.performBinWithSpanTime (new pipeline) = the copy of the row-based
+   pipeline: units ms, cs, ds, s, m, h, d, w; without aligntime the origin is Go's zero time (time.Truncate),
+   with aligntime=T it is T (floor of (ts - T)/span, for timestamps on BOTH sides of T), day and week spans
+   count from 1970 and ignore aligntime.  [grid_bucket origin span ts] = origin + floor((ts - origin)/span)*span. *)
+
+(* for EVERY origin, span and timestamp -- also timestamps before the origin (negative offsets) -- the bucket
+   contains the timestamp and lies on the grid of the origin; it is the only such grid point *)
+Theorem C04_grid_bucket_contains_ts : forall origin span ts, 0 < span ->
+  let b := grid_bucket origin span ts in
+  b <= ts /\ ts < b + span /\ (b - origin) mod span = 0.
+Proof. exact grid_bucket_contains. Qed.
+Print Assumptions C04_grid_bucket_contains_ts.
+
+Theorem C04_grid_bucket_unique : forall origin span ts b, 0 < span ->
+  (grid_bucket origin span ts = b) <-> ((b - origin) mod span = 0 /\ in_bucket b span ts = true).
+Proof. exact grid_bucket_iff. Qed.
+Print Assumptions C04_grid_bucket_unique.
+
+(* an align time k spans earlier or later (e.g. later than every event) defines the same buckets *)
+Theorem C04_grid_bucket_origin_shift : forall origin span ts k, 0 < span ->
+  grid_bucket (origin + k * span) span ts = grid_bucket origin span ts.
+Proof. exact grid_bucket_shift. Qed.
+Print Assumptions C04_grid_bucket_origin_shift.
+
+(* the code as modelled, every unit, with and without aligntime: the bucket contains the timestamp, has the
+   width of the span and lies on the grid of its origin.  Guard: the timestamp is at least one span after
+   1970 (below that the code clamps a negative bucket start to 0: C04_bin_align_clamp_example) *)
+Theorem C04_bin_time_contains_ts_guarded : forall u n align ts, 0 < n -> bin_span u n <= ts ->
+  let b := bin_time u n align ts in
+  b <= ts /\ ts < b + bin_span u n /\ (b - bin_origin u align) mod bin_span u n = 0.
+Proof. exact bin_time_contains_ts. Qed.
+Print Assumptions C04_bin_time_contains_ts_guarded.
+
+Theorem C04_bin_align_contains_ts : forall span align ts, 0 < span -> 0 <= ts ->
+  let b := bin_align span align ts in
+  b <= ts /\ ts < b + span /\ (span <= ts -> b = grid_bucket align span ts /\ (b - align) mod span = 0).
+Proof. exact bin_align_contains. Qed.
+Print Assumptions C04_bin_align_contains_ts.
+
+Theorem C04_bin_align_clamp_example : bin_align 10 5 2 = 0 /\ grid_bucket 5 10 2 = -5.
+Proof. exact bin_align_clamp_example. Qed.
+Print Assumptions C04_bin_align_clamp_example.
+
+(* why the division must be a FLOOR: with a division that truncates toward zero (Go's int64 `/`) every
+   timestamp before the origin that is not on a bucket boundary is put one span too late, into a bucket that
+   does not contain it; everywhere else the two agree *)
+Theorem C04_truncating_division_misses_ts_before_origin : forall origin span ts, 0 < span ->
+  ts < origin -> (origin - ts) mod span <> 0 ->
+  trunc_bucket origin span ts = grid_bucket origin span ts + span /\
+  in_bucket (trunc_bucket origin span ts) span ts = false.
+Proof. exact trunc_bucket_misses_ts. Qed.
+Print Assumptions C04_truncating_division_misses_ts_before_origin.
+
+Theorem C04_truncating_division_agrees_elsewhere : forall origin span ts, 0 < span ->
+  (origin <= ts \/ (origin - ts) mod span = 0) ->
+  trunc_bucket origin span ts = grid_bucket origin span ts.
+Proof. exact trunc_bucket_agrees. Qed.
+Print Assumptions C04_truncating_division_agrees_elsewhere.
+
+(* `bin span=.. [aligntime=T] <time> | stats count, sum(f) by <time>`: for ALL event lists (any mix of
+   timestamps before, at and after the align time), every unit: one row per bucket, every row key is a grid
+   point whose span holds at least one event, and the row of a grid point counts / sums exactly the events
+   whose timestamp lies in its span *)
+Theorem C04_bin_chart_partition_guarded : forall u n align (evs : list (Z * Z)), 0 < n ->
+  Forall (fun e => bin_span u n <= fst e) evs ->
+  let span := bin_span u n in
+  let origin := bin_origin u align in
+  let tc := bin_chart u n align evs in
+  NoDup (map fst tc) /\
+  (forall b, In b (map fst tc) -> (b - origin) mod span = 0 /\ exists e, In e evs /\ in_bucket b span (fst e) = true) /\
+  (forall b, (b - origin) mod span = 0 ->
+     tc_lookup b tc =
+       (Z.of_nat (length (filter (fun e => in_bucket b span (fst e)) evs)),
+        fold_right Z.add 0 (map snd (filter (fun e => in_bucket b span (fst e)) evs)))).
+Proof. exact bin_chart_partition. Qed.
+Print Assumptions C04_bin_chart_partition_guarded.
+
+(* the counts of the rows add up to the number of events, whatever the bucket function *)
+Theorem C04_chart_counts_every_event_once : forall (key : Z -> Z) (evs : list (Z * Z)),
+  fold_right Z.add 0 (map (fun r => fst (snd r)) (chart_by key evs)) = Z.of_nat (length evs).
+Proof. exact chart_by_total. Qed.
+Print Assumptions C04_chart_counts_every_event_once.
+
+(* non-vacuity: 10 s buckets anchored at T = 2024-07-07 17:00:36; events before, at and after T *)
+Example C04_bin_align_both_sides :
+  map (bin_time USec 10 (Some 1720371636000)) [1720371611000; 1720371626001; 1720371635999; 1720371636000; 1720371653500]
+  = [1720371606000; 1720371626000; 1720371626000; 1720371636000; 1720371646000].
+Proof. reflexivity. Qed.
+
+(* `timechart span=<n><unit>`: the bucket width that is used ([tc_interval] = GetIntervalInMillis as coded, after
+   fix c9c5b98) is the span that was asked for, for every unit *)
+Theorem C04_timechart_interval_is_span : forall u n, tc_interval u n = bin_span u n.
+Proof. exact tc_interval_is_span. Qed.
+Print Assumptions C04_timechart_interval_is_span.
+
+(* documentation of the behaviour before the fix ([tc_interval_prefix]: for centi- and deciseconds a time.Duration in
+   nanoseconds was returned as milliseconds) *)
+Theorem C04_prefix_timechart_interval_guarded : forall u n, u <> UCs -> u <> UDs -> tc_interval_prefix u n = bin_span u n.
+Proof. exact tc_interval_prefix_guarded. Qed.
+Print Assumptions C04_prefix_timechart_interval_guarded.
+
+Theorem C04_prefix_timechart_interval_cs_ds_refuted :
+  exists u n start end_ ts b, 0 < n /\ start <= ts /\ ts < end_ /\
+    tc_interval_prefix u n <> bin_span u n /\
+    find_bucket start end_ (tc_interval_prefix u n) ts = Some b /\
+    in_bucket b (bin_span u n) ts = false.
+Proof. exact tc_interval_prefix_cs_ds_refuted. Qed.
+Print Assumptions C04_prefix_timechart_interval_cs_ds_refuted.
+
 (* ---- tie by translation: the Gallina definition regenerated from timechartagg.go by gotrans on
    every run is the model's find_bucket (any edit that changes FindTimeRangeBucket's meaning
    breaks this obligation) ---- *)
